@@ -43,6 +43,10 @@ pub struct Fault {
     pub catching: bool,
     /// the handler sends its messages before the fault (events are already buffered when it panics)
     pub after_send: bool,
+    /// the panic is not a plain panic!() but the documented one of sending on a gate that is not an endpoint
+    /// (it is raised inside the simulator's own code)
+    #[serde(default)]
+    pub via_send: bool,
 }
 
 #[derive(Debug, Clone, Serialize, Deserialize, PartialEq)]
@@ -138,6 +142,10 @@ impl Node {
         if let Some(_f) = self.fault_at(site) {
             fired(self.idx, site);
             match self.mode {
+                Mode::Panic if _f.via_send => {
+                    send(Message::default().kind(K_TOKEN), "via");
+                    panic!("sending on the transit gate of m{} did not panic", self.idx)
+                }
                 Mode::Panic => panic!("injected fault at {site:?} in module m{}", self.idx),
                 Mode::Silent => {
                     self.silent.store(true, Ordering::SeqCst);
@@ -288,6 +296,11 @@ impl Module for Observer {
             let path: ObjectPath = format!("m{i}").into();
             if let Some(m) = des::net::globals().get(&path) {
                 log(usize::MAX, Kind::Active(m.is_active()), i as u64);
+                // the gates of every module stay usable (a query of a gate whose lock was poisoned would panic here)
+                if let Some(g) = m.gate("via", 0) {
+                    let _ = g.kind();
+                    let _ = g.next_gate();
+                }
             }
         }
         Ok(())
@@ -315,6 +328,15 @@ pub fn execute(case: &Case, mode: Mode) -> Run {
             );
         }
         sim.node("zz-observer", Observer { n: model.n });
+        // an unused chain through a transit gate on every module: va - via - vb
+        for i in 0..model.n {
+            let path = format!("m{i}");
+            let va = sim.gate(path.as_str(), "va");
+            let via = sim.gate(path.as_str(), "via");
+            let vb = sim.gate(path.as_str(), "vb");
+            va.connect(via.clone(), None);
+            via.connect(vb, None);
+        }
         if model.star {
             for i in 1..model.n {
                 let a = sim.gate("m0", &format!("to{i}"));
@@ -497,12 +519,15 @@ pub fn placements(model: &Model, baseline: &[Entry]) -> Vec<Fault> {
                     if after_send && !matches!(site, Site::Handle(_)) {
                         continue;
                     }
-                    v.push(Fault { module: m, site, catching, after_send });
+                    v.push(Fault { module: m, site, catching, after_send, via_send: false });
+                    if !after_send && !catching && matches!(site, Site::Handle(k) if k % 3 == 0) {
+                        v.push(Fault { module: m, site, catching, after_send, via_send: true });
+                    }
                 }
             }
         }
         for j in 0..model.task_steps[m] {
-            v.push(Fault { module: m, site: Site::Task(j), catching: false, after_send: false });
+            v.push(Fault { module: m, site: Site::Task(j), catching: false, after_send: false, via_send: false });
         }
     }
     v
@@ -576,6 +601,9 @@ pub fn cmd(args: &Args) -> Report {
                 rep.count(key, 1);
                 if fl.catching {
                     rep.count("faults_with_catching_stereotype", 1);
+                }
+                if fl.via_send {
+                    rep.count("faults_raised_inside_the_simulator_by_sending_on_a_transit_gate", 1);
                 }
             }
             if case.faults.len() > 1 {
